@@ -923,6 +923,10 @@ def m0_js():
     m.add(StructDef("JAfterShort", [("sp", StructT("JShortPair")), ("z", P("u64"))]))
     m.add(StructDef("JOpt", [("a", Opt(P("u8"), "diplomat")), ("b", Opt(P("i64"), "diplomat")), ("c", Opt(EnumT("Je"), "diplomat")),
                              ("d", Opt(StructT("JInner"), "diplomat")), ("e", P("u8"))]))
+    # a struct holding a union (DiplomatOption) is passed "padded direct": the padding of 2-scalar structs nested in it counts too
+    m.add(StructDef("JTail", [("w", P("isize")), ("h", P("i16"))]))
+    m.add(StructDef("JOptTail", [("o", Opt(P("i64"), "diplomat")), ("k", P("i8")), ("t", StructT("JTail")), ("q", Opt(P("i32"), "diplomat")), ("e", EnumT("Je"))]))
+    m.add(StructDef("JOptPair", [("o", Opt(P("u8"), "diplomat")), ("p", StructT("JPair")), ("z", P("u8"))]))
     m.add(OpaqueDef("Js"))
     m.add(StructDef("JRefs", [("o", OpaqueRef("Js")), ("n", P("u8")), ("p", OpaqueRef("Js", optional=True)), ("k", P("u16"))]))
     for sd in list(m.structs.values()):
